@@ -52,7 +52,7 @@ struct Ctx {
 impl Ctx {
     fn coq(&mut self, kind: u32, a: u64, b: u64, ops: &[i64], obs: &[i64], case: &Value, force: bool) {
         // kinds 9 and 11 are the runs of kinds 2 and 3 compared with both models: same budget
-        let k = match kind { 9 | 12 => 2, 11 => 3, 14 => 7, k => (k as usize).min(NK - 1) };
+        let k = match kind { 9 | 12 => 2, 11 => 3, 14 => 7, 16 => 6, 17 => 5, k => (k as usize).min(NK - 1) };
         if !force && self.used[k] >= self.budget[k] { return; }
         self.used[k] += 1;
         let term = format!(
@@ -434,10 +434,12 @@ trait HookFallback {
     fn verif_new_paused(_nw: usize, _cap: usize) -> ZResult<Arc<WorkStealingExecutor>> { Err(ZiporaError::configuration("hook missing")) }
     fn verif_find_task(&self, _w: usize) -> Option<Box<dyn Task>> { None }
     fn verif_balance(&self, _w: usize) {}
+    fn verif_queue_lens(&self, _w: usize) -> (usize, usize, usize) { (usize::MAX, 0, 0) }
 }
 impl HookFallback for WorkStealingExecutor {}
 
-/// ops: task code = submit, 10+w = find_task of worker w, 30+w = balance of worker w, 5 = total_queued
+/// ops: task code = submit, 10+w = find_task of worker w, 30+w = balance of worker w, 5 = total_queued,
+/// 6 = is_idle, 40+w = (local, steal, global) queue lengths seen from worker w (where did submit put the task?)
 fn hist_case(cx: &mut Ctx, nw: usize, cap: usize, ops: &[i64], force: bool) {
     let cell = "WorkStealingExecutor/history (hook)";
     let case = json!({"cell": "hist", "kind": 6, "nw": nw, "cap": cap, "ops": ops});
@@ -446,6 +448,7 @@ fn hist_case(cx: &mut Ctx, nw: usize, cap: usize, ops: &[i64], force: bool) {
         let ex = match WorkStealingExecutor::verif_new_paused(nw, cap) { Ok(e) => e, Err(_) => return None };
         let counters: Arc<Vec<AtomicU32>> = Arc::new((0..nsub + 1).map(|_| AtomicU32::new(0)).collect());
         let mut obs: Vec<i64> = vec![];
+        let mut xobs: Vec<i64> = vec![]; // the same history as the fine-grained model sees it (with the observer ops 6 and 40+w)
         let mut accepted = vec![false; nsub];
         let mut out = vec![0u32; nsub];
         let mut problems: Vec<String> = vec![];
@@ -458,11 +461,21 @@ fn hist_case(cx: &mut Ctx, nw: usize, cap: usize, ops: &[i64], force: bool) {
                 let ok = ex.submit(mk_task(next, o, &counters)).is_ok();
                 accepted[next] = ok;
                 obs.push(if ok { 1 } else { 0 });
+                xobs.push(if ok { 1 } else { 0 });
                 next += 1;
+            } else if o >= 40 {
+                let (l, s, g) = ex.verif_queue_lens(((o - 40) as usize).min(nw - 1));
+                if l == usize::MAX { xobs.push(-1); } else { xobs.push(l as i64); xobs.push(s as i64); xobs.push(g as i64); }
             } else if o >= 30 { ex.verif_balance(((o - 30) as usize).min(nw - 1)); }
-            else if o >= 10 { let t = ex.verif_find_task(((o - 10) as usize).min(nw - 1)); obs.push(took(t, &mut out, &mut problems)); }
-            else { obs.push(ex.total_queued() as i64); }
+            else if o >= 10 { let t = ex.verif_find_task(((o - 10) as usize).min(nw - 1)); let v = took(t, &mut out, &mut problems); obs.push(v); xobs.push(v); }
+            else if o == 6 { xobs.push(if ex.is_idle() { 1 } else { 0 }); }
+            else { let q = ex.total_queued() as i64; obs.push(q); xobs.push(q); }
         }
+        xobs.push(-7);
+        xobs.push(ex.total_queued() as i64);
+        xobs.push(if ex.is_idle() { 1 } else { 0 });
+        xobs.push(accepted.iter().filter(|&&b| b).count() as i64);
+        xobs.push(accepted.iter().filter(|&&b| !b).count() as i64);
         obs.push(-7);
         // every worker keeps asking for work until a whole pass finds nothing
         for _ in 0..(nsub + 2) {
@@ -479,6 +492,8 @@ fn hist_case(cx: &mut Ctx, nw: usize, cap: usize, ops: &[i64], force: bool) {
             if !accepted[i] && out[i] > 0 { problems.push(format!("task {} was rejected by submit but handed out", i)); break; }
         }
         if problems.is_empty() && (left != 0 || !ex.is_idle()) { problems.push(format!("all tasks handed out but total_queued = {} / is_idle = {}", left, ex.is_idle())); }
+        obs.push(-8);
+        obs.extend_from_slice(&xobs);
         Some((obs, problems))
     });
     match r {
@@ -487,7 +502,8 @@ fn hist_case(cx: &mut Ctx, nw: usize, cap: usize, ops: &[i64], force: bool) {
         Ok(Some((obs, problems))) => {
             cx.sum.eval(cell, &format!("h {} {} {:?}", nw, cap, ops), nsub >= 2 && ops.iter().any(|&o| (10..1000).contains(&o)));
             let stripped: Vec<i64> = ops.iter().map(|&o| if o >= 1000 { o % 10000 } else { o }).collect();
-            cx.coq(6, nw as u64, cap as u64, &stripped, &obs, &case, force);
+            // the old model on the history without the observer ops, then the fine-grained executor model on all of it
+            cx.coq(16, nw as u64, cap as u64, &stripped, &obs, &case, force);
             if let Some(p) = problems.first() { cx.sum.fail(cell, None, case, p); }
         }
     }
@@ -545,19 +561,31 @@ fn order_case(cx: &mut Ctx, cap: usize, codes: &[i64], force: bool) {
         tokio::time::sleep(Duration::from_millis(1)).await;
         let order = log.lock().unwrap().clone();
         let queued = ex.total_queued();
+        // the statistics once the worker has come to rest: total_executed, active_tasks, is_idle
+        let t1 = Instant::now();
+        while !(ex.is_idle() && ex.stats().total_executed as usize >= order.len()) && t1.elapsed() < Duration::from_millis(500) { tokio::time::sleep(Duration::from_micros(300)).await; }
+        let st = ex.stats();
+        let fin = vec![ex.total_queued() as i64, st.total_executed as i64, st.active_tasks as i64, if ex.is_idle() { 1 } else { 0 }];
         let _ = ex.shutdown().await;
-        Some((accept, order, queued))
+        Some((accept, order, queued, fin))
     }));
     match r {
         Err(p) => cx.sum.fail(cell, None, case, &format!("panicked: {}", p)),
         Ok(None) => cx.sum.fail(cell, None, case, "executor creation failed"),
-        Ok(Some((accept, order, queued))) => {
+        Ok(Some((accept, order, queued, fin))) => {
             let mut obs: Vec<i64> = accept.iter().map(|&b| if b { 1 } else { 0 }).collect();
             obs.push(-7);
             obs.extend(order.iter().map(|&i| i as i64));
             obs.push(-7);
             obs.push(queued as i64);
-            cx.coq(5, cap as u64, 0, &cv, &obs, &case, force);
+            // ... and the same run against the worker loop as a sequence of atomic steps, with the counters
+            obs.push(-8);
+            obs.extend(accept.iter().map(|&b| if b { 1 } else { 0 }));
+            obs.push(-7);
+            obs.extend(order.iter().map(|&i| i as i64));
+            obs.push(-7);
+            obs.extend_from_slice(&fin);
+            cx.coq(17, cap as u64, 0, &cv, &obs, &case, force);
             let mut seen = vec![0u32; n];
             for &i in &order { if i < n { seen[i] += 1; } }
             let bad: Vec<usize> = (0..n).filter(|&i| (accept[i] && seen[i] != 1) || (!accept[i] && seen[i] != 0)).collect();
@@ -1313,7 +1341,7 @@ fn run_one(cx: &mut Ctx, c: &Value) {
         }
         "hist" => {
             let nw = u(&c["nw"], 1).max(1) as usize;
-            let ops: Vec<i64> = ops.into_iter().filter(|&o| is_task_code(o) || o == 5 || (10..10 + nw as i64).contains(&o) || (30..30 + nw as i64).contains(&o)).collect();
+            let ops: Vec<i64> = ops.into_iter().filter(|&o| is_task_code(o) || o == 5 || o == 6 || (10..10 + nw as i64).contains(&o) || (30..30 + nw as i64).contains(&o) || (40..40 + nw as i64).contains(&o)).collect();
             hist_case(cx, nw, u(&c["cap"], 2) as usize, &ops, true)
         }
         "order" => {
@@ -1539,6 +1567,30 @@ pub fn run(args: &Args) {
         let alpha1 = [1001i64, 1003, 1000, 10, 30];
         for len in 1..=5 { enumerate_hist(&mut cx, len, &alpha1, 1, 4, 1); }
         enumerate_hist(&mut cx, 7, &alpha1, 1, 8, if thorough { 1 } else { 97 });
+        // admission made visible: after every submission the (local, steal, global) lengths of the worker it went to and
+        // is_idle(); around the capacity, so that the spill to the global queue and the round-robin choice show
+        let nadm = if thorough { 400 } else { 40 };
+        for k in 0..nadm {
+            let mut r = cx.rng.clone();
+            let nw = *r.pick(&[1usize, 2, 2, 3, 4]);
+            let cap = *r.pick(&[0usize, 1, 1, 2, 3]);
+            let nsub = nw * cap + r.range(1, 4) as usize;
+            let prio_mix = r.below(3);
+            let mut ops: Vec<i64> = vec![];
+            for i in 0..nsub {
+                ops.push(rand_code(&mut r, prio_mix, false));
+                ops.push(40 + (i % nw) as i64);
+                if r.chance(1, 3) { ops.push(6); }
+                if r.chance(1, 4) { ops.push(10 + r.below(nw as u64) as i64); ops.push(6); }
+                if r.chance(1, 6) { ops.push(30 + r.below(nw as u64) as i64); ops.push(40 + r.below(nw as u64) as i64); }
+            }
+            // take everything out again: is_idle() turns true with the last find_task although the harness, like a worker
+            // between find_task and active_tasks += 1, still holds the tasks
+            for _ in 0..(nsub + 1) { for w in 0..nw { ops.push(10 + w as i64); ops.push(6); } }
+            cx.rng = r;
+            if k < 1 { cx.sum.sample(json!({"cell": "hist", "nw": nw, "cap": cap, "ops": ops})); }
+            hist_case(&mut cx, nw, cap, &ops, true);
+        }
         let nrand = if thorough { 30000 } else { 1200 };
         for k in 0..nrand {
             let mut r = cx.rng.clone();
@@ -1549,7 +1601,7 @@ pub fn run(args: &Args) {
             let sub_bias = r.range(3, 8);
             let ops: Vec<i64> = (0..len).map(|_| {
                 if r.below(10) < sub_bias { rand_code(&mut r, prio_mix, false) }
-                else { match r.below(7) { 0..=3 => 10 + r.below(nw as u64) as i64, 4 | 5 => 30 + r.below(nw as u64) as i64, _ => 5 } }
+                else { match r.below(9) { 0..=3 => 10 + r.below(nw as u64) as i64, 4 | 5 => 30 + r.below(nw as u64) as i64, 6 => 5, 7 => 6, _ => 40 + r.below(nw as u64) as i64 } }
             }).collect();
             cx.rng = r;
             if k < 2 { cx.sum.sample(json!({"cell": "hist", "nw": nw, "cap": cap, "ops": ops})); }
